@@ -269,6 +269,18 @@ def directed():
            conns=[[R('c0', 'in0'), R('in0')], [R('c1', 'in0'), R('in0')], [R('out0'), R('c0', 'out0')], [R('out1'), R('c1', 'out0')]],
            uux=[[R('c0', 'p0'), R('c1', 'p0')]])
   D.append(('parent_UU_constraint', top, [{'path': ['c0'], 'new': plain_leaf(9233), 'mode': 'cls'}], {}))
+  # 22. children configured by set_param on the OBJECT before the parent attaches it (attribute at depth 2 and list element),
+  #     the parameter changes the structure (k % 3 extra wires / constants / nets); replaced by class once and repeatedly
+  def cfg(uid, k, oparam, **kw): return dict(plain_leaf(uid, **kw), k=k, oparam=oparam, kconst=True)
+  mid = _c(9241, 1, 1, items=[_k('c0', cfg(9242, 1, 5))], conns=[[R('c0', 'in0'), R('in0')], [R('out0'), R('c0', 'out0')]])
+  top = _c(9240, 1, 3, items=[_k('c0', mid), _k('d0[0]', cfg(9243, 0, 7)), _k('d0[1]', cfg(9244, 2, 4))],
+           conns=[[R('c0', 'in0'), R('in0')], [R('out0'), R('c0', 'out0')], [R('d0[0]', 'in0'), R('in0')], [R('out1'), R('d0[0]', 'out0')],
+                  [R('d0[1]', 'in0'), R('in0')], [R('out2'), R('d0[1]', 'out0')]])
+  keep = lambda uid, k, **kw: dict(plain_leaf(uid, **kw), k=k, kconst=True)
+  D.append(('object-level-set-param', top,
+            [{'path': ['c0', 'c0'], 'new': keep(9245, 5, kind='ff'), 'mode': 'cls'}, {'path': ['d0[1]'], 'new': keep(9246, 4), 'mode': 'cls'},
+             {'path': ['c0', 'c0'], 'new': keep(9247, 5), 'mode': 'cls'}, {'path': ['d0[0]'], 'new': cfg(9248, 1, 8), 'mode': 'obj'},
+             {'path': ['d0[0]'], 'new': keep(9249, 8), 'mode': 'cls'}], {}))
   return D
 
 # ----------------------------------------------------------------------------------------------- one case
@@ -295,6 +307,7 @@ def features(spec):
     if s['rdu']: f.add('RDU')
     if s['wru']: f.add('WRU')
     if s['mport']: f.add('mport')
+    if s.get('oparam') is not None: f.add('object-level set_param' + ('' if top else ' (nested)'))
     if s.get('caller'): f.add('method-net')
   walk(spec, True)
   return f
@@ -396,6 +409,12 @@ def special_leftovers(top):
   return {n: [['top.all_U_U_constraints', '', '']] for n in uu_constraint_leftovers(top)} | \
          {n: [['top.all_M_constraints', '', '']] for n in m_constraint_leftovers(top)} | \
          {n: [['top.all_RD_U/WR_U_constraints', '', '']] for n in value_constraint_leftovers(top)}
+
+def new_obj(cls, spec):
+  """the replacement instance, configured like a from-scratch parent would configure it"""
+  o = cls(k=spec['k'])
+  if spec.get('oparam') is not None: o.set_param('top.construct', k=spec['oparam'])
+  return o
 
 def sim_trace(t, spec, inputs):
   from pymtl3.dsl import Signal
@@ -512,7 +531,7 @@ def run_case(ck, case, verbose=False, report=True):
     obj = U.get_obj(t, path)
     try:
       if st['mode'] == 'cls': t.replace_component(obj, new_cls)
-      else: t.replace_component_with_obj(obj, new_cls(k=st['new']['k']))
+      else: t.replace_component_with_obj(obj, new_obj(new_cls, st['new']))
     except Exception as e:
       try:
         left = sorted({n: 1 for n in [leftover_name(*x) for x in U.scan(t)] if n} | special_leftovers(t), key=lambda n: order((n, 0)))
@@ -591,7 +610,7 @@ def run_case(ck, case, verbose=False, report=True):
           for st in steps:
             o2 = U.get_obj(t2, st['path']); c2 = U.load(ck.workdir, st['new'], 'm')
             if st['mode'] == 'cls': t2.replace_component(o2, c2)
-            else: t2.replace_component_with_obj(o2, c2(k=st['new']['k']))
+            else: t2.replace_component_with_obj(o2, new_obj(c2, st['new']))
           live = set(t2._dsl.all_upblks)
           t2._dsl.all_update_once -= {b for b in t2._dsl.all_update_once if b not in live}
           try:
@@ -647,8 +666,13 @@ def random_case(rng, g, idx):
     parent = U.sub(cur, path[:-1])
     called = any(r[0] == [path[-1]] for it in parent['items'] if it['t'] == 'blk' for r in it.get('mcalls', [])) or \
              parent.get('caller') == [path[-1]]
+    # class-based replacement re-instantiates with the construct arguments saved on the old child, which include what the
+    # old OBJECT was configured with (set_param on the object before it was attached)
+    kept = old['oparam'] if old.get('oparam') is not None else old['k']
     new = g.spec(old['nin'], old['nout'], rng.choice([0, 0, 1, 2]) if len(path) < 3 else 0,
-                 k=old['k'] if mode == 'cls' else None, mport=True if called else None, rin=bool(old.get('rin')))
+                 k=kept if mode == 'cls' else None, mport=True if called else None, rin=bool(old.get('rin')))
+    if old.get('oparam') is not None: new['kconst'] = True
+    if mode == 'obj' and rng.random() < 0.3: new['oparam'] = rng.randint(20, 29); new['kconst'] = True    # configured replacement object
     steps.append({'path': list(path), 'new': new, 'mode': mode})
     cur = U.subst(cur, path, new)
   inputs = [[rng.randint(0, 255) for _ in range(spec['nin'])] for _ in range(5)]
